@@ -19,10 +19,10 @@ Parents(n) == {p \in [1..n -> 0..(n - 1)] :                          \* pre-orde
                  p[1] = 0 /\ \A m \in 2..n : p[m] \in AncSelf([parent |-> p], m - 1)}
 Reqs(n) == {q \in Bools(n) : q[1]}                                   \* the root has no flag
 Outcomes(n) == {o \in Bools(n) \X Bools(n) : \A m \in 1..n : ~o[1][m] => o[2][m]}   \* onStart is irrelevant when onInit fails
-ProgsN(n) == {WithDesc([n |-> n, parent |-> p, req |-> q, iok |-> o[1], sok |-> o[2]]) : p \in Parents(n), q \in Reqs(n), o \in Outcomes(n)}
-Programs == UNION {ProgsN(n) : n \in 1..MaxN}
+\* Programs = all WithDesc([n, parent, req, iok, sok]) with n \in 1..MaxN, parent \in Parents(n), req \in Reqs(n),
+\* <<iok, sok>> \in Outcomes(n).  (Not defined as a constant set: TLC would enumerate it eagerly at start-up.)
 
-Init == /\ \E n \in 1..MaxN : \E p \in Parents(n), q \in Reqs(n), o \in Outcomes(n) :       \* = prog \in Programs, enumerated lazily
+Init == /\ \E n \in 1..MaxN : \E p \in Parents(n), q \in Reqs(n), o \in Outcomes(n) :       \* any program
              prog = WithDesc([n |-> n, parent |-> p, req |-> q, iok |-> o[1], sok |-> o[2]])
         /\ st = [m \in Mods(prog) |-> "N"]
         /\ mon = MonInit(prog)
